@@ -74,6 +74,22 @@ LOCK_RULE = ("proof obligations are `decide`d over tables regenerated from the c
              "invariants at quiescence; 1-4 pipelines composed from all stock nodes with shared nodes, 2-8 senders, concurrent Reopen/Rotate; concurrent gateable senders with slow "
              "composition) under the race detector; a round is one independent configuration")
 
+FS_RUN = dict(
+    model="filesink", sub="filesink", driver="filesink",
+    quick=["-n", "300", "-conc", "6", "-kill", "6"],
+    thorough=["-n", "6000", "-conc", "60", "-kill", "80"],
+    search=["-n", "2000", "-conc", "20", "-kill", "20"],
+)
+FS_ASSUME = [
+    "one write(2) on an O_APPEND regular file is all-or-nothing under SIGKILL; rename/unlink/open behave as on Linux (inode semantics)",
+    "the wall clock does not step backwards (file names are ordered by it); the time condition of rotate() is an input of the model, decided by the harness from the measured interval (uncertain cases are counted in the evidence)",
+    "write failures (the retry path of Process) are not exercised: real files on a healthy file system",
+]
+FS_RULE = ("operation sequences (write of 4..200 bytes, Reopen, external rename of the active file [+Reopen], pause > MaxDuration) x MaxBytes in {0,50,120,300} x MaxFiles 0..3 x "
+           "MaxDuration in {0,30ms} x TimestampOnlyOnRotate x Mode in {unset,0640} on real files, directory listing (names -> kind+rank, contents -> event ids, modes, BytesWritten) "
+           "compared with the model after every step; plus 1-8 concurrent writers and a child process SIGKILLed at a random instant, checked by the Go oracle; a case is "
+           "non-trivial when at least two events were acknowledged, distinct by op list")
+
 PROPS = {
     "C01": dict(
         module="Evl.Props.C01",
@@ -156,6 +172,23 @@ PROPS = {
         trusted_base=TB_COMMON,
         assumptions=M1_ASSUME + ["with a failing node Broker.Reopen returns at the first failing graph in Go's map order: which other nodes are reached is not compared"],
         rule=M1_RULE,
+    ),
+    "C08": dict(
+        module="Evl.Props.C08",
+        theorems=["Evl.C08.no_loss_without_retention", "Evl.C08.nothing_invented", "Evl.C08.retention_only_removes", "Evl.C08.step_holds",
+                  "Evl.C08.open_contents", "Evl.C08.append_contents"],
+        runs=[FS_RUN], oracle_prefixes=["C08"], models=["M5 FileSink"],
+        trusted_base=TB_COMMON,
+        assumptions=FS_ASSUME + ["partial: order across files, the suffix shape under retention, concurrent writers and crash atomicity are decided by the model's construction and the Go oracle on real files, not by a Lean theorem"],
+        rule=FS_RULE,
+    ),
+    "C15": dict(
+        module="Evl.Props.C15",
+        theorems=["Evl.C15.trigger_iff", "Evl.C15.trigger_on_source", "Evl.C15.never_without_limits", "Evl.C15.prune_keeps_foreign",
+                  "Evl.C15.created_mode", "Evl.C15.open_name"],
+        runs=[FS_RUN], oracle_prefixes=["C15"], models=["M5 FileSink", "Generated.Decisions"],
+        trusted_base=TB_COMMON + ["gofacts translator: the rotation condition is regenerated from file_sink.go on every run"],
+        assumptions=FS_ASSUME, rule=FS_RULE,
     ),
     "C11": dict(
         module="Evl.Props.C11",
